@@ -63,6 +63,9 @@ def gen_case(rng):
         # data may keep flowing for longer than the tolerance between two separate interruptions (each interruption
         # is judged by its own clock): now and then the source takes 1.5x the tolerance to produce a chunk
         lull = wait == 1 and rng.random() < 0.35
+        if rng.random() < 0.25:
+            # the source is not ready yet when the handler starts: end-of-file / timeout results before the first byte
+            steps += [rng.choice(["eof", "timeout"]) for _ in range(1 if maxk == 1 else rng.choice([1, 2]))]
         for i, c in enumerate(chunks):
             if lull and i >= 1 and rng.random() < 0.6:
                 steps.append("sleep:%d" % int(1.5 * tol))
